@@ -25,6 +25,27 @@ theorem cond_of_wellTagged {lt : Int → Int → Bool} {runs : List (List Elem)}
     runs.flatten.Pairwise (Cond lt tagLt) :=
   List.Pairwise.imp (fun hab _ _ => hab) h
 
+/-- what the concatenation theorems need of the runs, for an arbitrary tag order `tl`:
+inside a run keys never decrease and equivalent keys stand in tag order; across runs the tags increase -/
+structure GoodRuns (lt : Int → Int → Bool) (tl : Elem → Elem → Prop) (runs : List (List Elem)) : Prop where
+  inner : ∀ r ∈ runs, r.Pairwise (fun a b => lt b.key a.key = false ∧ Cond lt tl a b)
+  cross : runs.Pairwise (fun r₁ r₂ => ∀ x ∈ r₁, ∀ y ∈ r₂, tl x y)
+
+theorem GoodRuns.cond {lt : Int → Int → Bool} {tl : Elem → Elem → Prop} {runs : List (List Elem)}
+    (h : GoodRuns lt tl runs) : runs.flatten.Pairwise (Cond lt tl) := by
+  rw [List.pairwise_flatten]
+  refine ⟨fun r hr => List.Pairwise.imp (fun hab => hab.2) (h.inner r hr), ?_⟩
+  exact List.Pairwise.imp (fun hab x hx y hy _ _ => hab x hx y hy) h.cross
+
+theorem goodRuns_of_wellTagged {lt : Int → Int → Bool} {runs : List (List Elem)} (hw : WellTagged runs)
+    (hk : KeySorted lt runs) : GoodRuns lt tagLt runs := by
+  have hw' := List.pairwise_flatten.mp hw
+  refine ⟨?_, hw'.2⟩
+  intro r hr
+  have h1 := hk r hr
+  have h2 := hw'.1 r hr
+  exact List.Pairwise.and h1 (List.Pairwise.imp (fun hab _ _ => hab) h2)
+
 theorem mem_takes_flatten : ∀ {runs : List (List Elem)} {offs : List Nat} {x : Elem},
     x ∈ (takes runs offs).flatten → ∃ (i : Nat) (r : List Elem) (o : Nat), runs[i]? = some r ∧ offs[i]? = some o ∧ x ∈ r.take o
   | [], _, _, h => by simp [takes] at h
@@ -62,20 +83,20 @@ theorem takes_flatten_length : ∀ (runs : List (List Elem)) (offs : List Nat),
     rw [ih]; omega
 
 /-- elements of different runs: the one from the earlier run has the smaller tag -/
-theorem tagLt_of_index_lt {runs : List (List Elem)} (hw : WellTagged runs) {i j : Nat} {ri rj : List Elem}
+theorem tl_of_index_lt {lt : Int → Int → Bool} {tl : Elem → Elem → Prop} {runs : List (List Elem)}
+    (hg : GoodRuns lt tl runs) {i j : Nat} {ri rj : List Elem}
     (hi : runs[i]? = some ri) (hj : runs[j]? = some rj) (hij : i < j) {x y : Elem} (hx : x ∈ ri) (hy : y ∈ rj) :
-    tagLt x y := by
-  have hp := (List.pairwise_flatten.mp hw).2
+    tl x y := by
+  have hp := hg.cross
   rw [List.pairwise_iff_getElem] at hp
   have hil := (List.getElem?_eq_some_iff.mp hi)
   have hjl := (List.getElem?_eq_some_iff.mp hj)
-  have := hp i j hil.1 hjl.1 hij x (by rw [hil.2]; exact hx) y (by rw [hjl.2]; exact hy)
-  exact this
+  exact hp i j hil.1 hjl.1 hij x (by rw [hil.2]; exact hx) y (by rw [hjl.2]; exact hy)
 
 /-- **The C08 specification makes the split cross-ordered.** -/
-theorem crossOrdered_of_partition {lt : Int → Int → Bool} {runs : List (List Elem)} (hw : WellTagged runs)
-    (hk : KeySorted lt runs) {rank : Nat} {offs : List Nat} (hp : IsPartition lt (keyRuns runs) rank offs) :
-    CrossOrdered lt tagLt runs offs := by
+theorem crossOrdered_of_partition {lt : Int → Int → Bool} {tl : Elem → Elem → Prop} {runs : List (List Elem)}
+    (hg : GoodRuns lt tl runs) {rank : Nat} {offs : List Nat} (hp : IsPartition lt (keyRuns runs) rank offs) :
+    CrossOrdered lt tl runs offs := by
   intro x hx y hy
   obtain ⟨i, ri, oi, hri, hoi, hxi⟩ := mem_takes_flatten hx
   obtain ⟨j, rj, oj, hrj, hoj, hyj⟩ := mem_drops_flatten hy
@@ -85,12 +106,12 @@ theorem crossOrdered_of_partition {lt : Int → Int → Bool} {runs : List (List
     rw [hoi] at hoj; cases hoj
     -- same run: x stands before y
     have hmem : ri ∈ runs := List.mem_of_getElem? hri
-    have hks := hk ri hmem
-    have hts : ri.Pairwise tagLt := (List.pairwise_flatten.mp hw).1 ri hmem
-    rw [← List.take_append_drop oi ri] at hks hts
-    have h1 := (List.pairwise_append.mp hks).2.2 x hxi y hyj
-    have h2 := (List.pairwise_append.mp hts).2.2 x hxi y hyj
-    exact Or.inr ⟨h1, h2⟩
+    have hin := hg.inner ri hmem
+    rw [← List.take_append_drop oi ri] at hin
+    have h1 := (List.pairwise_append.mp hin).2.2 x hxi y hyj
+    cases hxy : lt x.key y.key with
+    | true => exact Or.inl hxy
+    | false => exact Or.inr ⟨h1.1, h1.2 hxy h1.1⟩
   · have hki : (keyRuns runs)[i]? = some (ri.map (·.key)) := by simp [keyRuns, hri]
     have hkj : (keyRuns runs)[j]? = some (rj.map (·.key)) := by simp [keyRuns, hrj]
     have hb := hp.ordered i j _ _ oi oj hij hki hkj hoi hoj x.key
@@ -98,7 +119,7 @@ theorem crossOrdered_of_partition {lt : Int → Int → Bool} {runs : List (List
       (by rw [← List.map_drop]; exact List.mem_map_of_mem hyj)
     rcases hb with hb | ⟨hb, hlt⟩
     · exact Or.inl hb
-    · exact Or.inr ⟨hb, tagLt_of_index_lt hw hri hrj hlt ((List.take_sublist _ _).subset hxi)
+    · exact Or.inr ⟨hb, tl_of_index_lt hg hri hrj hlt ((List.take_sublist _ _).subset hxi)
         ((List.drop_sublist _ _).subset hyj)⟩
 
 /-- partitions at non-decreasing ranks form a chain of nested offset vectors -/
@@ -149,32 +170,32 @@ thread's chunks (thread t merges `run_i[o_{t-1}[i], o_t[i])`, `o_{-1} = 0`).  If
 satisfies the C08 specification at its rank and the ranks are non-decreasing, then the concatenation of
 the per-thread stable merges, in thread order, is exactly the first `rank_last` elements of the stable
 k-merge of the whole input. -/
-theorem exact_concat_eq_take_kMerge {lt : Int → Int → Bool} (hlt : StrictWeak lt) {runs : List (List Elem)}
-    (hw : WellTagged runs) (hk : KeySorted lt runs) (ps : List (Nat × List Nat))
+theorem exact_concat_eq_take_kMerge {lt : Int → Int → Bool} {tl : Elem → Elem → Prop} (hlt : StrictWeak lt)
+    (htl : TagOrder tl) {runs : List (List Elem)} (hg : GoodRuns lt tl runs) (ps : List (Nat × List Nat))
     (hm : (0 :: ps.map (·.1)).Pairwise (· ≤ ·)) (hall : ∀ p ∈ ps, IsPartition lt (keyRuns runs) p.1 p.2) :
     ((chunkRows runs (List.replicate runs.length 0) (ps.map (·.2))).map (fun row => kMerge lt row)).flatten =
       (kMerge lt runs).take (lastRank 0 ps) := by
-  have hc : runs.flatten.Pairwise (Cond lt tagLt) := cond_of_wellTagged hw
+  have hc : runs.flatten.Pairwise (Cond lt tl) := hg.cond
   have hkl : (keyRuns runs).length = runs.length := by simp [keyRuns]
   have hz : IsPartition lt (keyRuns runs) 0 (List.replicate runs.length 0) := by
     have := isPartition_zero lt (keyRuns runs); rwa [hkl] at this
   have hchain := chain_of_partitions hlt ps 0 _ hz hm hall
-  have hcc := concat_chunks hlt tagOrder_tagLt hc (ps.map (·.2)) (List.replicate runs.length 0) hchain
-    (crossOrdered_of_partition hw hk hz)
+  have hcc := concat_chunks hlt htl hc (ps.map (·.2)) (List.replicate runs.length 0) hchain
+    (crossOrdered_of_partition hg hz)
     (by
       intro o ho
       obtain ⟨p, hp, rfl⟩ := List.mem_map.mp ho
-      exact ⟨by rw [(hall p hp).len, hkl], crossOrdered_of_partition hw hk (hall p hp)⟩)
+      exact ⟨by rw [(hall p hp).len, hkl], crossOrdered_of_partition hg (hall p hp)⟩)
   rw [takes_zero_flatten] at hcc
   simp only [sortStable, List.foldr_nil, List.nil_append] at hcc
   -- the whole merge splits at the last offset vector
   have hlast := lastOffs_isPartition ps 0 _ hz hall
   have hlen : (lastOffs (List.replicate runs.length 0) (ps.map (·.2))).length = runs.length := by
     rw [hlast.len, hkl]
-  have hsplit := sortStable_split hlt tagOrder_tagLt hc
+  have hsplit := sortStable_split hlt htl hc
     (List.Pairwise.sublist (takes_flatten_sublist runs _) hc)
     (List.Pairwise.sublist (drops_flatten_sublist runs _) hc)
-    (takes_drops_perm runs _ hlen) (crossOrdered_of_partition hw hk hlast)
+    (takes_drops_perm runs _ hlen) (crossOrdered_of_partition hg hlast)
   have hcount : (takes runs (lastOffs (List.replicate runs.length 0) (ps.map (·.2)))).flatten.length = lastRank 0 ps := by
     rw [takes_flatten_length runs _ ?_ hlen, hlast.sum]
     intro i r o hr ho
